@@ -2514,7 +2514,7 @@ setattr_trait(
         }
 
         if (!changed) {
-            changed = (old_value != value);
+            changed = (old_value != new_value);
         }
     }
 
